@@ -252,7 +252,30 @@ func (g *FnGen) doCall(ci ssa.CallInstruction, v ssa.Value) {
 			if (cs.Callee == name || (name == "" && cs.Callee == "dynamic")) && (cs.K == 0 || cs.K == g.callOrd[ci]) {
 				for i, a := range cs.Assert {
 					ctx := &EvalCtx{g: g, env: g.mergeEnv(env), st: g.st, oldSt: g.entrySt, oldEnv: g.env, guard: guard}
-					g.obligeClause("assert", site+"/"+clauseLabel(a, i), guard, a, ctx, ci.Pos())
+					if cs.K != 0 {
+						g.obligeClause("assert", site+"/"+clauseLabel(a, i), guard, a, ctx, ci.Pos())
+						continue
+					}
+					// "#0" = every call site of this callee where the clause's identifiers are in
+					// scope (like at-return assertions); it must apply to at least one (checked by the
+					// drift rule through siteApplied)
+					func() {
+						nItems, nObs := len(g.items), len(g.obs)
+						defer func() {
+							if e := recover(); e != nil {
+								if _, isEval := e.(evalError); isEval {
+									g.items, g.obs = g.items[:nItems], g.obs[:nObs]
+									return
+								}
+								panic(e)
+							}
+						}()
+						g.obligeClause("assert", site+"/"+clauseLabel(a, i), guard, a, ctx, ci.Pos())
+						if g.siteApplied == nil {
+							g.siteApplied = map[string]int{}
+						}
+						g.siteApplied[cs.Callee+"/"+clauseLabel(a, i)]++
+					}()
 				}
 			}
 		}
@@ -982,6 +1005,18 @@ func (g *FnGen) finish() {
 	for k, r := range g.rets {
 		g.st = r.st
 		g.checkTypeInvsAtReturn(k, r)
+	}
+	if g.C != nil && g.parent == nil {
+		for _, cs := range g.C.Calls {
+			if cs.K != 0 || cs.Callee == "mapupdate" {
+				continue
+			}
+			for i, a := range cs.Assert {
+				if g.siteApplied[cs.Callee+"/"+clauseLabel(a, i)] == 0 {
+					efail("at-call assertion %q on every site of %s is in scope at none of them in %s (contract drift)", clauseLabel(a, i), cs.Callee, g.name)
+				}
+			}
+		}
 	}
 	if g.C != nil && (len(g.C.ReturnAsserts) > 0 || len(g.C.MustCall) > 0) {
 		g.checkReturnAsserts()
